@@ -3,18 +3,23 @@
 //!   rsharness <property> --tier quick|thorough --seed N --model PATH --out REPORT.json
 //!   rsharness replay --model PATH --case CASE.json        (re-runs one recorded case)
 
+mod alloc;
 mod ctx;
 mod gen;
 mod json;
 mod neon_emu;
 mod neon_port;
 mod objs;
+mod prim;
 mod prng;
 mod props;
 mod seqgen;
 
 use ctx::{Case, Ctx};
 use json::J;
+
+#[global_allocator]
+static GLOBAL: alloc::Counting = alloc::Counting;
 
 fn arg(args: &[String], name: &str) -> Option<String> {
     args.iter().position(|a| a == name).and_then(|i| args.get(i + 1).cloned())
@@ -29,6 +34,19 @@ fn main() {
         std::process::exit(2);
     }
     let what = args[1].clone();
+    // child modes of the C16 check (fresh processes, cold tables)
+    match what.as_str() {
+        "c16-deps" => { props::c16::child_deps(&args[2]); return; }
+        "c16-race" => { props::c16::child_race(args[2].parse().unwrap_or(1), args[3].parse().unwrap_or(4)); return; }
+        "c16-gen" => {
+            match props::c16::observe_deps() {
+                Ok(t) => { let out = arg(&args, "--out").expect("--out"); std::fs::write(out, props::c16::lean_file(&t)).expect("write"); println!("{:?}", t); }
+                Err(e) => { eprintln!("{}", e); std::process::exit(1); }
+            }
+            return;
+        }
+        _ => {}
+    }
     let tier = arg(&args, "--tier").unwrap_or("quick".into());
     let seed: u64 = arg(&args, "--seed").and_then(|s| s.parse().ok()).unwrap_or(1);
     let model = arg(&args, "--model").unwrap_or("/verif/lean/.lake/build/bin/rsmodel".into());
@@ -51,14 +69,20 @@ fn main() {
         }
         "C01" => props::c01::run(&mut ctx),
         "C02" => props::c02::run(&mut ctx),
+        "C03" => props::c03::run(&mut ctx),
         "C04" => props::c04::run(&mut ctx),
         "C05" => props::c05::run(&mut ctx),
         "C06" => props::c06::run(&mut ctx),
         "C07" => props::c07::run(&mut ctx),
+        "C08" => props::c08::run(&mut ctx),
         "C09" => props::c09::run(&mut ctx),
         "C10" => props::c10::run(&mut ctx),
         "C11" => props::c11::run(&mut ctx),
         "C13" => props::c13::run(&mut ctx),
+        "C14" => props::c14::run(&mut ctx),
+        "C15" => props::c15::run(&mut ctx),
+        "C16" => props::c16::run(&mut ctx),
+        "C17" => props::c17::run(&mut ctx),
         "C12" => props::c12::run(&mut ctx),
         other => {
             eprintln!("unknown property {}", other);
